@@ -2,7 +2,6 @@ package main
 
 import (
 	"fmt"
-	"go/constant"
 	"go/token"
 	"sort"
 	"strings"
@@ -86,6 +85,73 @@ func (vt *versionTable) infeasibleUnder(atLeast string) func(from, to *ssa.Basic
 		}
 		return false
 	}
+}
+
+// verSite: a place where a request's Version field is given the constant k — a store of the constant, or one incoming
+// edge (from → to) of the merged value a store writes (`v := 1; if … { v = 4 }; req.Version = v`, which is also what is
+// left of a version-selection helper that was inlined back).
+type verSite struct {
+	st       *ssa.Store
+	k        int64
+	from, to *ssa.BasicBlock // nil for a direct constant store
+}
+
+// guardBlock: the block at whose end (or on whose edge to s.to) the guards of the site are evaluated.
+func (s verSite) guardBlock() (from, to *ssa.BasicBlock) {
+	if s.from != nil {
+		return s.from, s.to
+	}
+	return s.st.Block(), nil
+}
+
+// versionSites: the sites of fn that assign a constant to <typ>.Version (typ "" = any type; the owner is returned by
+// ownerOf).  nonConst lists stores whose value cannot be resolved to constants.
+func versionSites(fn *ssa.Function, typ string) (sites []verSite, owners map[*ssa.Store]string, nonConst []*ssa.Store) {
+	owners = map[*ssa.Store]string{}
+	Info(fn).Each(func(it Item) {
+		st, ok := it.In.(*ssa.Store)
+		if !ok {
+			return
+		}
+		ch := fieldChain(st.Addr)
+		if len(ch) == 0 || ch[len(ch)-1].name != "Version" || (typ != "" && ch[len(ch)-1].owner != typ) {
+			return
+		}
+		owners[st] = ch[len(ch)-1].owner
+		if k, ok := dConstInt(st.Val); ok {
+			sites = append(sites, verSite{st: st, k: k})
+			return
+		}
+		var walk func(v ssa.Value, depth int) bool
+		var found []verSite
+		seen := map[*ssa.Phi]bool{}
+		walk = func(v ssa.Value, depth int) bool {
+			ph, ok := v.(*ssa.Phi)
+			if !ok || depth > 6 {
+				return false
+			}
+			if seen[ph] {
+				return true
+			}
+			seen[ph] = true
+			for i, e := range ph.Edges {
+				if k, ok := dConstInt(e); ok {
+					found = append(found, verSite{st, k, ph.Block().Preds[i], ph.Block()})
+					continue
+				}
+				if !walk(e, depth+1) {
+					return false
+				}
+			}
+			return true
+		}
+		if walk(strip(st.Val), 0) && len(found) > 0 {
+			sites = append(sites, found...)
+			return
+		}
+		nonConst = append(nonConst, st)
+	})
+	return
 }
 
 // ---------------------------------------------------------------- C04.format-gate (shared with C16)
@@ -206,22 +272,15 @@ func c04FormatGate(c *Ctx) {
 	// (3) the request version that carries record batches
 	if fn := c.NeedFn(rule, "produceSet.buildRequest"); fn != nil {
 		found := false
-		Info(fn).Each(func(it Item) {
-			st, ok := it.In.(*ssa.Store)
-			if !ok {
-				return
-			}
-			ch := fieldChain(st.Addr)
-			if len(ch) == 0 || ch[len(ch)-1].name != "Version" || ch[len(ch)-1].owner != "ProduceRequest" {
-				return
-			}
-			k, isC := st.Val.(*ssa.Const)
-			if !isC || k.Value == nil || k.Value.Kind() != constant.Int || k.Int64() != 3 {
-				return
+		vs, _, _ := versionSites(fn, "ProduceRequest")
+		for _, v := range vs {
+			if v.k != 3 {
+				continue
 			}
 			found = true
-			wantTrue(fn, "request-version=3", st, st.Block(), nil, "ProduceRequest v3 (the first that carries record batches) is selected")
-		})
+			from, to := v.guardBlock()
+			wantTrue(fn, "request-version=3", v.st, from, to, "ProduceRequest v3 (the first that carries record batches) is selected")
+		}
 		if !found {
 			c.Unresolved(rule, "store of ProduceRequest.Version = 3 in buildRequest")
 		}
@@ -353,26 +412,10 @@ func c03FetchFields(c *Ctx) {
 		c.Unresolved(rule, "version globals")
 		return
 	}
-	type vstore struct {
-		st *ssa.Store
-		k  int64
+	vstores, _, nonConst := versionSites(fn, "FetchRequest")
+	for _, st := range nonConst {
+		c.Fail(rule, fn, "version-store", st, "FetchRequest.Version is assigned a value that is not a constant (or a choice between constants): the fields the version needs cannot be determined", nil)
 	}
-	var vstores []vstore
-	Info(fn).Each(func(it Item) {
-		st, ok := it.In.(*ssa.Store)
-		if !ok {
-			return
-		}
-		ch := fieldChain(st.Addr)
-		if len(ch) == 0 || ch[len(ch)-1].name != "Version" || ch[len(ch)-1].owner != "FetchRequest" {
-			return
-		}
-		if k, ok := dConstInt(st.Val); ok {
-			vstores = append(vstores, vstore{st, k})
-		} else {
-			c.Fail(rule, fn, "version-store", st, "FetchRequest.Version is assigned a value that is not a constant: the fields the version needs cannot be determined", nil)
-		}
-	})
 	if len(vstores) < 3 {
 		c.Unresolved(rule, fmt.Sprintf("constant stores to FetchRequest.Version in fetchNewMessages (found %d)", len(vstores)))
 		return
@@ -434,9 +477,16 @@ func c03FetchFields(c *Ctx) {
 				continue
 			}
 			reg := WholeFn(fn)
-			g := vt.atLeast(reg, vs.st.Block(), nil)
+			gf, gt := vs.guardBlock()
+			g := vt.atLeast(reg, gf, gt)
 			r := *reg
-			r.Cut = vt.infeasibleUnder(g)
+			inf := vt.infeasibleUnder(g)
+			r.Cut = func(from, to *ssa.BasicBlock) bool {
+				if vs.to != nil && to == vs.to && from != vs.from {
+					return true // the merged version is k only when the merge is entered from vs.from
+				}
+				return inf != nil && inf(from, to)
+			}
 			// a feasible path entry → the version store → end of function without the assignment
 			before, _ := r.Reach(Is(vs.st), assign)
 			if before.IsZero() {
